@@ -10,8 +10,8 @@ use std::{
 use crate::reusable_box::ReusableBoxFuture;
 use futures_core::Stream;
 use imbl::Vector;
-use tokio::sync::broadcast::{
-    self,
+use crate::broadcast_impl::{
+    self as broadcast,
     error::{RecvError, TryRecvError},
     Receiver,
 };
